@@ -4,7 +4,7 @@
    order in which Go's map iteration re-marks the stored leases, any permutation), starting
    from Setup4 on an empty database.  `replies ops outs` are the (chaddr, yiaddr) pairs of the
    replies.  All schedules: Handler4 is one critical section under the plugin mutex (C16). *)
-From Verif Require Import Base BaseProofs Net NetProofs Bitset IdxAlloc BitsetProofs Ipcalc IpcalcRun Alloc AllocRun Alloc4Proofs Msg4 RangePlugin RangeRun RangeProofs RangeTheorems RangeExamples.
+From Verif Require Import Base BaseProofs Net NetProofs Bitset IdxAlloc BitsetProofs Ipcalc IpcalcRun Alloc AllocRun Alloc4Proofs Msg4 RangePlugin RangeRun RangeProofs RangeTheorems RangeExamples RangeSetupAny.
 From Coq Require Import Permutation.
 Open Scope N_scope.
 
@@ -83,6 +83,24 @@ Theorem range_exhaustion :
 Proof. exact RangeTheorems.range_exhaustion. Qed.
 Print Assumptions range_exhaustion.
 
+
+Theorem restart_on_any_database_in_range :
+  forall (s e : bytes) (lease : Z) (db : list row) (st : rstate),
+  wf_bytes s ->
+  wf_bytes e ->
+  range_setup s e lease db = Ok st ->
+  exists s4 e4 : bytes,
+  to4 s = Some s4 /\
+  to4 e = Some e4 /\
+  be_u32_of s4 < be_u32_of e4 /\
+  (exists idxs : list N,
+  map (fun kr : bytes * rec => to4_or_nil (rc_ip (snd kr))) (rs_recs st) =
+  map (fun i : N => be_bytes 4 (be_u32_of s4 + i)) idxs /\
+  NoDup idxs /\
+  (forall i : N, In i idxs -> be_u32_of s4 + i <= be_u32_of e4) /\
+  (forall i : N, In i (bits (a4_bm (rs_alloc st))) <-> In i idxs)).
+Proof. exact (@RangeSetupAny.setup_any_db_in_range). Qed.
+Print Assumptions restart_on_any_database_in_range.
 
 (* Non-vacuity: a concrete set-up and history meet the hypotheses (proofs/RangeExamples.v):
    two clients with a 5-byte and a 1-byte hardware address on a 2-address range, a restart
